@@ -109,6 +109,33 @@ def main(argv):
     result['case_wall'][case.get('id', '?')] = round(time.time() - t1, 3)
     result['cases_done'].append(case.get('id'))
     result['export'] = M.export()
+  # ---- generic history monitor (thorough tier): the first cases of the shard are executed once more
+  # at the end, in the same process, after everything else has run.  Results of correct code cannot
+  # depend on what ran before; state leaking between objects (a memo keyed on too little, an in-place
+  # edit of a shared constant) shows up as an oracle failure of a case that passed the first time.
+  if shard['tier'] == 'thorough' and len(shard['cases']) >= 3 and os.environ.get('VP_NO_HISTORY_RERUN') != '1':
+    cheap = sorted(shard['cases'][:6], key=lambda c: float(c.get('cost', 1.0)))[:2]
+    for case in cheap:
+      M.begin(dict(case, history_rerun=True))
+      result['running'] = str(case.get('id')) + ' (history rerun)'
+      flush()
+      try:
+        mod.run(dict(case), M)
+        M.cover('history_rerun', 'cases re-executed at the end of the shard')
+      except core.Discard:
+        pass
+      except core.HarnessError as e:
+        result['case_errors'].append({'case': case, 'error': f'HarnessError (history rerun): {e}'})
+      except Exception as e:  # pylint: disable=broad-except
+        frames = traceback.extract_tb(e.__traceback__)
+        if _repo_frames(frames, repo):
+          M._record('no_exception_on_in_domain_input', 1.0, 0.0)  # pylint: disable=protected-access
+          M._violate('no_exception_on_in_domain_input', None,  # pylint: disable=protected-access
+                     reason='repository code raised (history rerun)', exc=f'{type(e).__name__}: {e}'[:500],
+                     tb=traceback.format_exc()[-3000:])
+        else:
+          result['case_errors'].append({'case': case, 'error': f'{type(e).__name__}: {e}'[:500],
+                                        'tb': traceback.format_exc()[-3000:]})
   result['running'] = None
   try:
     M.recheck_watched()
